@@ -3,10 +3,14 @@ import FcpptModel.Model.C10
 /-!
 # C17 — model of the typed wrappers and of the comparison / hash functions
 
-Part (a): `fcppt::strong_typedef<T, Tag>` over the C integer types (no type below `int`, so no
-integer promotion), mirroring
+Part (a): `fcppt::strong_typedef<T, Tag>` over the C integer types.  For `int` and wider every operator is
+modelled; for the types narrower than `int` (`signed char`, `unsigned char`, `short`, `unsigned short`) the binary
+and unary operators are ill-formed (the result of the promoted operation is brace-initialised into `T`: a
+narrowing conversion), so only the assigning operators, `++`/`--`, comparisons and hash exist there — with
+integral promotion (`IntTy.promoted`, `IntTy.conv`).  Mirrors
 
-* `strong_typedef_impl.hpp`        : `ST` (one member `value_`), `get`
+* `strong_typedef_impl.hpp`        : `ST` (one member `value_`), `get` (const and non-const: `ST.set`), implicit copy (`ST.assign`)
+* `strong_typedef_map.hpp`, `strong_typedef_apply.hpp`, `strong_typedef_construct_cast.hpp` : `ST.map`, `ST.apply2`, `ST.constructCast`
 * `strong_typedef_arithmetic.hpp`  : `+ - *` (binary), unary `-`, `++x --x x++ x--`
 * `strong_typedef_bitwise.hpp`     : `& | ^ ~`
 * `strong_typedef_assignment.hpp`  : `+= -= *= &= |= ^=`
@@ -59,6 +63,10 @@ def i32 : IntTy := ⟨true, 32⟩
 def u32 : IntTy := ⟨false, 32⟩
 def i64 : IntTy := ⟨true, 64⟩
 def u64 : IntTy := ⟨false, 64⟩
+def i8 : IntTy := ⟨true, 8⟩
+def u8 : IntTy := ⟨false, 8⟩
+def i16 : IntTy := ⟨true, 16⟩
+def u16 : IntTy := ⟨false, 16⟩
 
 def lo (t : IntTy) : Int := if t.signed then -(2 ^ (t.bits - 1) : Int) else 0
 def hi (t : IntTy) : Int := if t.signed then 2 ^ (t.bits - 1) - 1 else 2 ^ t.bits - 1
@@ -83,6 +91,27 @@ def band (t : IntTy) (a b : Int) : Int := t.ofBV (t.toBV a &&& t.toBV b)
 def bor (t : IntTy) (a b : Int) : Int := t.ofBV (t.toBV a ||| t.toBV b)
 def bxor (t : IntTy) (a b : Int) : Int := t.ofBV (t.toBV a ^^^ t.toBV b)
 def bnot (t : IntTy) (a : Int) : Int := t.ofBV (~~~ t.toBV a)
+
+/-! ### compound assignment and `++`/`--` of the C type (`a op= b` is `a = static_cast<T>(a op b)`)
+
+For a type narrower than `int` both operands are promoted to `int` (integral promotion), the operator is that
+of `int`, and the result is converted back to `T` (C++20: the unique value congruent modulo 2^bits).  For `int`
+and wider nothing is promoted and the conversion is the identity on the values of the type. -/
+
+/-- integral promotion -/
+def promoted (t : IntTy) : IntTy := if t.bits < 32 then i32 else t
+/-- conversion of an integer value to the type `t` (modulo 2^bits into the range of `t`) -/
+def conv (t : IntTy) (x : Int) : Int := if t.signed then Int.bmod x (2 ^ t.bits) else x % (2 ^ t.bits : Int)
+
+def addAssign (t : IntTy) (a b : Int) : M Int := do let r ← t.promoted.add a b; pure (t.conv r)
+def subAssign (t : IntTy) (a b : Int) : M Int := do let r ← t.promoted.sub a b; pure (t.conv r)
+def mulAssign (t : IntTy) (a b : Int) : M Int := do let r ← t.promoted.mul a b; pure (t.conv r)
+def andAssign (t : IntTy) (a b : Int) : Int := t.conv (t.promoted.band a b)
+def orAssign (t : IntTy) (a b : Int) : Int := t.conv (t.promoted.bor a b)
+def xorAssign (t : IntTy) (a b : Int) : Int := t.conv (t.promoted.bxor a b)
+/-- `++a` / `--a`: `a += 1` / `a -= 1` -/
+def inc (t : IntTy) (a : Int) : M Int := t.addAssign a 1
+def dec (t : IntTy) (a : Int) : M Int := t.subAssign a 1
 end IntTy
 
 /-- `fcppt::strong_typedef<T, Tag>`: exactly one member, `value_` -/
@@ -102,8 +131,8 @@ def bxor (t : IntTy) (l r : ST) : ST := ⟨t.bxor l.get r.get⟩
 def bnot (t : IntTy) (x : ST) : ST := ⟨t.bnot x.get⟩
 
 /-- `++x`: `++_value.get(); return _value;` → (operand afterwards, what the returned reference shows) -/
-def preInc (t : IntTy) (x : ST) : M (ST × ST) := do let v ← t.add x.get 1; pure (⟨v⟩, ⟨v⟩)
-def preDec (t : IntTy) (x : ST) : M (ST × ST) := do let v ← t.sub x.get 1; pure (⟨v⟩, ⟨v⟩)
+def preInc (t : IntTy) (x : ST) : M (ST × ST) := do let v ← t.inc x.get; pure (⟨v⟩, ⟨v⟩)
+def preDec (t : IntTy) (x : ST) : M (ST × ST) := do let v ← t.dec x.get; pure (⟨v⟩, ⟨v⟩)
 /-- `x++`: `temp{_value}; ++_value; return temp;` → (operand afterwards, returned copy) -/
 def postInc (t : IntTy) (x : ST) : M (ST × ST) := do
   let temp := x
@@ -115,12 +144,23 @@ def postDec (t : IntTy) (x : ST) : M (ST × ST) := do
   pure (x', temp)
 
 /-- `l op= r`: `_left.get() op= _right.get(); return _left;` → (left afterwards, through the returned reference) -/
-def addAssign (t : IntTy) (l r : ST) : M (ST × ST) := do let v ← t.add l.get r.get; pure (⟨v⟩, ⟨v⟩)
-def subAssign (t : IntTy) (l r : ST) : M (ST × ST) := do let v ← t.sub l.get r.get; pure (⟨v⟩, ⟨v⟩)
-def mulAssign (t : IntTy) (l r : ST) : M (ST × ST) := do let v ← t.mul l.get r.get; pure (⟨v⟩, ⟨v⟩)
-def andAssign (t : IntTy) (l r : ST) : ST × ST := (⟨t.band l.get r.get⟩, ⟨t.band l.get r.get⟩)
-def orAssign (t : IntTy) (l r : ST) : ST × ST := (⟨t.bor l.get r.get⟩, ⟨t.bor l.get r.get⟩)
-def xorAssign (t : IntTy) (l r : ST) : ST × ST := (⟨t.bxor l.get r.get⟩, ⟨t.bxor l.get r.get⟩)
+def addAssign (t : IntTy) (l r : ST) : M (ST × ST) := do let v ← t.addAssign l.get r.get; pure (⟨v⟩, ⟨v⟩)
+def subAssign (t : IntTy) (l r : ST) : M (ST × ST) := do let v ← t.subAssign l.get r.get; pure (⟨v⟩, ⟨v⟩)
+def mulAssign (t : IntTy) (l r : ST) : M (ST × ST) := do let v ← t.mulAssign l.get r.get; pure (⟨v⟩, ⟨v⟩)
+def andAssign (t : IntTy) (l r : ST) : ST × ST := (⟨t.andAssign l.get r.get⟩, ⟨t.andAssign l.get r.get⟩)
+def orAssign (t : IntTy) (l r : ST) : ST × ST := (⟨t.orAssign l.get r.get⟩, ⟨t.orAssign l.get r.get⟩)
+def xorAssign (t : IntTy) (l r : ST) : ST × ST := (⟨t.xorAssign l.get r.get⟩, ⟨t.xorAssign l.get r.get⟩)
+
+/-- the implicitly defined copy / move assignment `l = r` → (left afterwards, through the returned reference) -/
+def assign (_l r : ST) : ST × ST := (r, r)
+/-- writing through the non-const `get()`: `x.get() = v` -/
+def set (_x : ST) (v : Int) : ST := ⟨v⟩
+/-- `strong_typedef_map(x, f)`: `strong_typedef<R, Tag>(f(x.get()))` -/
+def map (f : Int → Int) (x : ST) : ST := ⟨f x.get⟩
+/-- `strong_typedef_apply(f, x, y)`: `strong_typedef<R, Tag>(f(x.get(), y.get()))` -/
+def apply2 (f : Int → Int → Int) (x y : ST) : ST := ⟨f x.get y.get⟩
+/-- `strong_typedef_construct_cast<ST, Conv>(v)`: `ST(Conv(v))` -/
+def constructCast (conv : Int → Int) (v : Int) : ST := ⟨conv v⟩
 
 def lt (l r : ST) : Bool := decide (l.get < r.get)
 def le (l r : ST) : Bool := decide (l.get ≤ r.get)
